@@ -100,7 +100,24 @@ def run(prog, rep, tier, repo):
     # ------------------------------------------------------------------ D5 handlers
     rets = f.return_values()
     out = rets[0] if rets else None
-    pushes = [c for c in f.calls() if c.path and short(c.path) == 'push' and c.args and c.args[0] == out]
+    raw_pushes = [c for c in f.calls() if c.path and short(c.path) == 'push' and c.args and c.args[0] == out]
+
+    class Site:
+        # a result site: the value that ends up in the output at one program point.  A push of a multi-definition local
+        # (`let value = match .. {..}; out.push(value)`) contributes one site per definition of that local
+        def __init__(self, v, bb, span):
+            self.args = (out, v)
+            self.bb = bb
+            self.span = span
+    pushes = []
+    for c in raw_pushes:
+        v = c.args[1]
+        defs = [st for st in f.stores() if st.target == v] if tag(v) == 'local' else []
+        if defs:
+            for st in defs:
+                pushes.append(Site(st.value, st.bb, st.span))
+        else:
+            pushes.append(Site(v, c.bb, c.span))
     fills = {}
     extrap = []
     inrange = []
